@@ -117,6 +117,9 @@ def gen_scenario(rnd, profile='contract', k=None, npasses=None, maxops=5, sched_
         })
         sc['bug0'] = rnd.choice([0, 0, 1, 3])
         sc['extra0'] = rnd.choice([0, 0, 1, 2])
+        for p in passes:
+            if rnd.random() < 0.15:
+                p['newfix'] = gen_content(rnd, 1, 4)
     return sc
 
 
@@ -125,3 +128,17 @@ def aos_loops(sc):
     (C03 is about the real passes; the driver model takes any pass).  Such scenarios need the
     model's fuel; the generator keeps them but the harness bounds the run."""
     return any(p['aos'] in (0, 2) and any(o[0] in ('dup', 'swap', 'set', 'same') for o in p['ops']) for p in sc['passes'])
+
+
+def gen_group(rnd, profile='faults', k=None):
+    """A scenario for CVise.reduce: first / main / last groups; passes may repeat so that the
+    cache meets the same contents again."""
+    sc = gen_scenario(rnd, profile, k=k, npasses=rnd.randint(2, 4))
+    ps = sc.pop('passes')
+    main = ps[: max(1, len(ps) - 1)]
+    if rnd.random() < 0.5:
+        main = main + [dict(main[0])]          # same pass (same key) twice in the group
+    sc['group'] = {'first': ps[-1:] if rnd.random() < 0.5 else [], 'main': main,
+                   'last': [dict(ps[0])] if rnd.random() < 0.5 else []}
+    sc['cfg']['no_cache'] = rnd.random() < 0.3
+    return sc
